@@ -21,7 +21,9 @@ from . import _pitfall_lints as L
 
 LINTS = (("shared mutable fill", L.shared_mutable_fill), ("stale loop carry", L.stale_loop_carry),
          ("mutable default argument", L.mutable_default_argument), ("late-binding closure", L.late_binding_closure),
-         ("loop-scoped value read in a later loop", L.loop_scoped_value_in_later_loop), ("per-call memo keyed too narrowly", L.local_memo_key))
+         ("loop-scoped value read in a later loop", L.loop_scoped_value_in_later_loop), ("per-call memo keyed too narrowly", L.local_memo_key),
+         ("ordered result from set iteration order", L.set_order_dependence),
+         ("deepcopy with a memo shared between loop iterations", L.deepcopy_shared_memo))
 
 _CONTROL = '''
 def a(keys):
@@ -55,6 +57,20 @@ def e(pairs, groups):
     out = []
     for g in groups:
         out.append((key, g))
+    return out
+
+def h(names):
+    uniq = set(names)
+    out = []
+    for nm in uniq:
+        out.append(nm)
+    return out
+
+def k2(items):
+    from copy import deepcopy
+    memo, out = {}, []
+    for it in items:
+        out.append(deepcopy(it, memo))
     return out
 
 def g(nodes):
